@@ -474,7 +474,7 @@ var statusGen = rapid.SampledFrom([]int{200, 201, 204, 301, 400, 404, 418, 500, 
 func genMisc(t *rapid.T, cfg ScriptCfg) (op Op, ok bool) {
 	var kinds []OpKind
 	if cfg.Writes {
-		kinds = append(kinds, OpWrite, OpWrite, OpStatus, OpHeader, OpFlush)
+		kinds = append(kinds, OpWrite, OpWrite, OpStatus, OpHeader, OpFlush, OpBlob)
 	}
 	if cfg.Data {
 		kinds = append(kinds, OpSet, OpAddError, OpObserve, OpObserve)
@@ -500,6 +500,9 @@ func genMisc(t *rapid.T, cfg ScriptCfg) (op Op, ok bool) {
 			code = rapid.SampledFrom([]int{0, -1}).Draw(t, "code")
 		}
 		return Op{K: OpStatus, N: code}, true
+	case OpBlob:
+		// a response helper; its data may be empty ("only write headers": nothing is committed yet)
+		return Op{K: OpBlob, N: statusGen.Draw(t, "blobStatus"), S: rapid.SampledFrom([]string{"", "", "b"}).Draw(t, "blobData")}, true
 	case OpHeader:
 		return Op{K: OpHeader, S: rapid.SampledFrom([]string{"X-A", "X-B", "Content-Type"}).Draw(t, "hk"), S2: rapid.StringMatching(`[a-z]{1,3}`).Draw(t, "hv")}, true
 	case OpSet:
